@@ -102,6 +102,7 @@ type c16Case struct {
 	custom   []string  // header names registered with WithDecoder (the harness's xor decoder)
 	passNil  []string  // header names registered with WithDecoder(name, fn) where fn returns (nil, nil): "nothing to decode"
 	conc     *c16Conc  // a concurrency case instead of a request script
+	eh       int       // > 0: WithErrorHandler(fn) where fn answers (status it is handed) + eh and nothing else
 	then     []c16Case // further servers built AFTER this one in the same process (same case), each with its own requests
 }
 
@@ -302,6 +303,14 @@ func c16Corpus() []c16Case {
 		{mode: "client", hdr: "identity", body: c16Body{kind: 't', n: 64}},
 		{mode: "pre", hdr: "x-xor", lib: "xor", body: c16Body{kind: 't', n: 200}},
 	}})
+	// WithErrorHandler: rejections are answered by the caller's handler (handed 400), nothing else changes
+	cs = append(cs, c16Case{algos: []string{"", "gzip"}, max: 1000, ct: "zstd", eh: 22, custom: []string{"x-xor"}, reqs: []c16Req{
+		{mode: "client", body: c16Body{kind: 't', n: 300}},
+		{mode: "garbage", hdr: "gzip", body: x("this is not gzip")},
+		{mode: "pre", hdr: "gzip", lib: "gzip", lvl: 6, body: c16Body{kind: 't', n: 900}},
+		{mode: "pre", hdr: "x-xor", lib: "xor", body: c16Body{kind: 't', n: 1001}},
+		{mode: "client", hdr: "", body: c16Body{kind: 't', n: 10}},
+	}})
 	// concurrency: handlers that close the body themselves, then overlapping requests (every algorithm)
 	for i, ct := range []string{"gzip", "zstd", "zlib", "snappy", "lz4", "deflate", "none"} {
 		cs = append(cs, c16Case{conc: &c16Conc{k: 4 + 2*i, closes: 1 + i%2, rounds: 2, ct: ct}})
@@ -403,6 +412,9 @@ func c16Gen(c int, rnd interface {
 	}
 	if cs.max <= 0 && cs.limitRel != "default" {
 		cs.max = 1
+	}
+	if rnd.IntN(6) == 0 {
+		cs.eh = []int{18, 22, 51}[rnd.IntN(3)] // 418, 422, 451: still client errors
 	}
 	nreq := 1 + rnd.IntN(4)
 	for i := 0; i < nreq; i++ {
@@ -551,6 +563,12 @@ func c16Stage(t *testing.T, out *vOut, cs c16Case) bool {
 	for _, name := range cs.passNil {
 		opts = append(opts, WithDecoder(name, c16NilDecoder))
 	}
+	if cs.eh > 0 {
+		add := cs.eh
+		opts = append(opts, WithErrorHandler(func(w http.ResponseWriter, _ *http.Request, _ string, statusCode int) {
+			w.WriteHeader(statusCode + add)
+		}))
+	}
 	srv, err := hss.ToServer(context.Background(), componenttest.NewNopHost(), componenttest.NewNopTelemetrySettings(), base, opts...)
 	if err != nil {
 		t.Fatalf("ToServer: %v", err)
@@ -575,7 +593,7 @@ func c16Stage(t *testing.T, out *vOut, cs c16Case) bool {
 	defer ts.Close()
 
 	hcs := &ClientConfig{Endpoint: ts.URL, Compression: configcompression.Type(cs.ct), CompressionParams: newCompressionParams(configcompression.Level(cs.lvl))}
-	out.Linef("op cfg algos=%s max=%d ct=%s lvl=%d custom=%s", c16AlgosToken(cs), cs.max, vHex(cs.ct), cs.lvl, c16CustomToken(cs))
+	out.Linef("op cfg algos=%s max=%d ct=%s lvl=%d custom=%s eh=%d", c16AlgosToken(cs), cs.max, vHex(cs.ct), cs.lvl, c16CustomToken(cs), cs.eh)
 	if err := hcs.Validate(); err != nil {
 		t.Fatalf("generator produced invalid client params: %v", err)
 	}
@@ -695,6 +713,9 @@ func c16Stage(t *testing.T, out *vOut, cs c16Case) bool {
 	}
 	if len(cs.passNil) > 0 {
 		out.Linef("stat with_passthrough_decoder 1")
+	}
+	if cs.eh > 0 {
+		out.Linef("stat with_error_handler 1")
 	}
 	return nt
 }
